@@ -926,7 +926,10 @@ class Sandbox:
         if inputs is None:
             self.inputs = []
         if clear:
-            self.inputs.clear()
+            # Start a fresh queue instead of emptying the old one in place: the
+            # old one may be the very list we were handed (``set_input(get_input())``)
+            # or an input function, which has no ``clear``
+            self.inputs = []
         if isinstance(inputs, str):
             self.inputs.append(inputs)
         elif isinstance(inputs, (int, float, bool)):
